@@ -96,6 +96,11 @@ func (un *Unit) scopeFor(fr *Frame, cur, old *State, results []Val) *Scope {
 			if _, clash := sc.vars[al.Comment]; !clash {
 				sc.vars[al.Comment] = SV{t: "", typ: al.Type().(*types.Pointer).Elem(), place: val.place}
 			}
+		} else if ok && al.Comment != "" && val.place == nil && isStructType(al.Type().(*types.Pointer).Elem()) {
+			// a struct-typed local that lives in memory: visible as the object itself
+			if _, clash := sc.vars[al.Comment]; !clash {
+				sc.vars[al.Comment] = SV{t: val.t, typ: al.Type()}
+			}
 		}
 		if rg, ok := v.(*ssa.Range); ok {
 			sc.vars["$iter"] = SV{t: val.t, sort: "Int"}
@@ -2039,7 +2044,7 @@ func (un *Unit) ghostDefPtr(ds []*GhostDef, x SV) *GhostDef {
 		return nil
 	}
 	for _, d := range ds {
-		if d.Type == n.Obj().Name() && d.Pkg == n.Obj().Pkg().Name() {
+		if d.Type == n.Obj().Name() && d.Pkg == pkgKey(n.Obj().Pkg()) {
 			return d
 		}
 	}
